@@ -4,7 +4,7 @@ import os
 from pyvc.api import *
 from pyvc.spec import callee_of
 
-SPEC_IMPORTS = ['contracts.common', 'contracts.c04']
+SPEC_IMPORTS = ['contracts.common', 'contracts.c04', 'contracts.c17']
 SPEC_FUNCTIONS = ['applies_below', 'search_matches']
 
 
@@ -219,3 +219,9 @@ NOT_DECIDED = ['FolderIO.walk in-place pruning loop and gitignored_paths parsing
                'regex prefilter vs parso tokenisation; inference behind dotted searches',
                'search_in_module match predicate: contract pending']
 TRUSTED = ['os.path.join / os.path.sep POSIX semantics', 'str.rpartition / split / join contracts']
+
+
+def dynamic_contracts(repo):
+    """the text pre-filter of the project-wide search never skips a file whose decoded text matches (shared with C17)"""
+    from contracts import c17
+    return [c17._check_fs]
